@@ -59,6 +59,35 @@ CHECKS = {
         technique="TLA+ model of the exporter + converter acceptance, TLC exhaustive, each case round-tripped through proto2python and ORT",
         design_ref="DESIGN.md section 4 C13",
     ),
+    "C03": dict(
+        level="model_checking",
+        text="Optimizer.tla (extends Tensor, Graph) builds small models by actions (unary/binary/Clip/Cast/CastLike/Transpose/Dropout, shape chains, "
+             "Reshape/Expand/Unsqueeze, If with constant or input condition whose branches capture outer values and own initializers; constants as "
+             "Constant nodes, initializers, overridable initializer-inputs; five input worlds incl. symbolic and unnamed dims) and then runs optimize_ir as "
+             "named steps transcribed from the code (FoldVisit one node per step: symbolic-value substitution, node-level shape inference, the partial "
+             "evaluators incl. If inlining with initializer moving, FoldByReference with the graph-input guard, _clear_unused_initializers; FoldOutputs; "
+             "RewriteVisit with the kernel-expressible default rules; DCE; LiftConstants; LiftSubgraphInits; DedupInits; CSE; OutputFix); invariant "
+             "PropertyHolds after EVERY step: outputs equal on every probe. Every selected model is built as a real ModelProto and run through "
+             "optimize() and rotating variants (optimize_ir, fold_constants, remove_unused_nodes, rewrite, RewritePass, option tuples, proto vs IR); ORT "
+             "original vs optimized on 3 probes (bit-exact for int/bool); plus 1905 ONNX backend-test models lifted seven ways with their recorded outputs "
+             "as a third oracle (exploration).",
+        note="sequence ops, Loop, functions/InlinePass, size gates and should_fold are covered by the library stage and the variants, not by the TLA+ "
+             "model; originals ORT refuses are discarded and counted",
+        technique="TLA+ step-wise optimizer model with exact Eval, TLC exhaustive + simulation, models replayed through optimize() variants on ORT, plus lifted ONNX node-test models",
+        design_ref="DESIGN.md section 4 C03",
+    ),
+    "C04": dict(
+        level="model_checking",
+        text="Same Optimizer.tla; the invariant PropertyHolds also requires after every step: signature kept (names, order, defaults, output types), never "
+             "raises, Graph!SSA and Graph!Scoped, and equality on an OVERRIDE probe for overridable initializer-inputs (never read as constants). The "
+             "harness judges on the real code: no exception from optimize/rewrite/fold_constants (120 s watchdog), onnx.checker and Graph!WF (TLC) on the "
+             "result, signature equal, and for models with overridable inputs runs with the default omitted and with an override value; same lifted "
+             "library stage (incl. inputs lifted to overridable defaults).",
+        note="Graph.tla SSA is global (stricter than ONNX for sibling If branches): an SSA failure counts only if a scoped check also fails; "
+             "termination is a watchdog, not a liveness property",
+        technique="TLA+ step-wise optimizer model (signature/WF/override invariants), TLC exhaustive + simulation, replay through optimize() variants + checker + GraphCheck + override runs",
+        design_ref="DESIGN.md section 4 C04",
+    ),
     "C05": dict(
         level="model_checking",
         text="Rules.tla models one application attempt of one shipped rewrite rule to one host model as the steps of try_rewrite (Match incl. literal "
